@@ -88,6 +88,10 @@ def check(ctx, rule):
                             used = [n.id for n in ast.walk(st.value) if isinstance(n, ast.Name) and n.id in ips]
                             if len(set(used)) == 1 and st.targets[0].attr not in p2a.values():
                                 p2a.setdefault(used[0], st.targets[0].attr)
+                            elif len(set(used)) > 1 and st.targets[0].attr not in p2a.values() and st.targets[0].attr.lstrip("_") in used:
+                                # (`self._encoding = default(array) if encoding is None else list(encoding)`: the attribute holds the
+                                # parameter it is named after; the other one only feeds the default)
+                                p2a.setdefault(st.targets[0].attr.lstrip("_"), st.targets[0].attr)
             for c in calls(init):
                 if call_name(c) == "super().__init__" and c.args and isinstance(c.args[0], ast.Name) and c.args[0].id in ips:
                     p2a[c.args[0].id] = "_elements"
@@ -161,14 +165,23 @@ def check(ctx, rule):
         if isinstance(d_, ast.Dict) and any(k_ is None and isinstance(v_, ast.Call) and (call_name(v_) or "").endswith(".serialize")
                                             for k_, v_ in zip(d_.keys, d_.values)):
             extra |= {k_.value if isinstance(k_, ast.Constant) else ast.unparse(k_) for k_ in d_.keys if k_ is not None}
+    # (.. or added with `content.update({...})`, the table given in place or as a module-level constant)
+    for u_ in ast.walk(fl["write"]):
+        if isinstance(u_, ast.Call) and isinstance(u_.func, ast.Attribute) and u_.func.attr == "update" and len(u_.args) == 1 and not u_.keywords:
+            tab_ = u_.args[0]
+            if isinstance(tab_, ast.Name):
+                tab_ = s.module_assign(tab_.id) if hasattr(s, "module_assign") else None
+            if isinstance(tab_, ast.Dict):
+                extra |= {k_.value if isinstance(k_, ast.Constant) else ast.unparse(k_) for k_ in tab_.keys if k_ is not None}
     extra = sorted(extra)
     # everything that can refuse (serialisation, packing) happens before the target is opened for writing: a refused write leaves the
     # file that was there as it was
     wf_ = ctx.src(BCIF).func("BinaryCIFFile.write")
-    opens_ = [w for w in ast.walk(wf_) if isinstance(w, ast.With) and any(isinstance(i.context_expr, ast.Call) and call_name(i.context_expr) == "open" for i in w.items)]
-    inside_ = [c for w in opens_ for b_ in w.body for c in ast.walk(b_) if isinstance(c, ast.Call)
+    opens_ = [c for c in ast.walk(wf_) if isinstance(c, ast.Call) and call_name(c) == "open"]
+    # (whether the handle is made in the `with` header or bound to a name first: nothing that serialises stands behind the call)
+    inside_ = [c for o_ in opens_ for c in ast.walk(wf_) if isinstance(c, ast.Call) and (c.lineno, c.col_offset) > (o_.lineno, o_.col_offset)
                and ((call_name(c) or "").split(".")[-1] in ("serialize", "packb", "pack", "dumps") or (call_name(c) or "") in ("self.write", "BinaryCIFFile.write"))]
-    ctx.ob(f"{rule}.serialised-before-opening", BCIF, "BinaryCIFFile.write", f"{len(opens_)} open(..) block(s), {len(inside_)} serialising call(s) inside",
+    ctx.ob(f"{rule}.serialised-before-opening", BCIF, "BinaryCIFFile.write", f"{len(opens_)} open(..) call(s), {len(inside_)} serialising call(s) behind one",
            len(opens_) == 1 and not inside_,
            "opening the path for writing empties the file: a SerializationError raised afterwards leaves an empty file where a valid one was", wf_.lineno)
     ctx.ob(f"{rule}.file-keys", BCIF, "BinaryCIFFile.write", f"extra keys {extra}", extra == ["encoder", "version"],
